@@ -352,8 +352,13 @@ def generate(res):
             else:
                 ops.append("SetNode %s %d %s %d %s %s %s" % (cstr(st[1]), st[2], b(st[3]), code, poslist(stt["ps"]), strlist(stt["cs"]), poslist(stt["marks"])))
                 trace.append({"op": "setnode", "id": st[1], "offset": st[2], "result": C.outcome(x), "state": stt, "nav_mathml": C.outcome(gm)})
-        if ok_session:
+        # a very long walk writes its whole history at every step: such a session is left to the oracle (the tie takes
+        # sessions up to 150 000 stack entries)
+        weight = sum(len(s_["state"]["ps"]) for s_ in trace if s_.get("state"))
+        if ok_session and weight <= 150000:
             items.append("[" + ";\n    ".join(ops) + "]")
+        elif ok_session and res is not None:
+            res.extra["sessions_for_the_oracle_only"] = res.extra.get("sessions_for_the_oracle_only", 0) + 1
         traces.append(trace)
     body = HEADER + "From MC Require Import Model.Nav.\n"
     body += ("Inductive nav_op :=\n| NewExpr (ids : list (list N)) (root : list N)\n"
